@@ -240,6 +240,16 @@ Definition conc_get_ok (ch : chain)
                     | Some bs => view_eqb x t f bs (uget ch b x t f k)
                     end) calls.
 
+(* two versions of the chain (a reorg): every successful Get has the view of
+   the uncached assembly of ONE of them *)
+Definition reorg_ok (ch1 ch2 : chain)
+  (calls : list (option kind * extra * bool * list N * key * option (list blk))) : bool :=
+  forallb (fun c => let '(b, x, t, f, k, res) := c in
+                    match res with
+                    | None => true
+                    | Some bs => view_eqb x t f bs (uget ch1 b x t f k) || view_eqb x t f bs (uget ch2 b x t f k)
+                    end) calls.
+
 Inductive case :=
 | CCache (mx : N) (ops : list cop)
 | CHead (mx : N) (ops : list (hop * option (N * bytes) * hdump))
@@ -249,6 +259,7 @@ Inductive case :=
 | CAttach (init : blk) (ops : list aop) (final : blk)
 | CGet (mx : N) (ch : list cblock) (ops : list (gop * gobs))
 | CGetAuto (mx : N) (ch : list cblock) (ops : list (gop * gobs))
+| CReorg (ch1 ch2 : list cblock) (calls : list (option kind * extra * bool * list N * key * option (list blk)))
 | CBroken      (* the driver could not run part of its streams: never corresponds *)
 | CConcCache (mx : N) (G : N) (fetches : list (key * N * bool)) (rets : list (key * option N))
 | CConcGet (ch : list cblock) (calls : list (option kind * extra * bool * list N * key * option (list blk))).
@@ -263,6 +274,7 @@ Definition check (c : case) : bool :=
   | CAttach b ops final => blk_eqb (a_run b ops) final
   | CGet mx ch ops => get_seq (chain_of ch) (new_client mx) ops
   | CGetAuto mx ch ops => get_seq_auto (chain_of ch) (new_client mx) ops
+  | CReorg ch1 ch2 calls => reorg_ok (chain_of ch1) (chain_of ch2) calls
   | CBroken => false
   | CConcCache mx G fetches rets => conc_cache_ok mx G fetches rets
   | CConcGet ch calls => conc_get_ok (chain_of ch) calls
